@@ -55,7 +55,7 @@ PROPS = {
                   "Seeded exploration of interleavings of concurrent pushes with timer/size/forced flushes and of per-INSERT outcomes; every 2xx is checked against the log of successful INSERT blocks ordered by global event numbers, every request must be answered exactly once within a configuration-derived bound after faults stop. Sampling, not enumeration.",
                   "schedule points are the instrumented synchronisation operations; rows are attributed by run-unique tags", INGEST_RULE,
                   ["request-arrived-while-insert-in-flight", "insert-failed", "reconnect-refused-then-accepted", "request-answered-5xx", "request-answered-2xx"], design_ref="DESIGN.md §4 C01"),
-    "C02": ingest("C02", "deterministic simulation: every INSERT block observed at the ClickHouse boundary is decoded and checked row by row against the submitted body models",
+    "C02": ingest("C02", "deterministic simulation: every INSERT block observed at the ClickHouse boundary is decoded and checked row by row against the submitted body models; the outcome reported to a request is checked against the blocks that carried its rows",
                   "Same runs as C01; every block must be rectangular, every row must be exactly one submitted row with all fields from that row, no row twice in a block. Row shapes include empty streams, >1000 points, >1 MiB chunks.",
                   "profiles tables: only row counts are interpreted", INGEST_RULE,
                   ["request-parsed-into-several-chunks", "request-arrived-while-insert-in-flight", "insert-failed"], design_ref="DESIGN.md §4 C02"),
@@ -67,7 +67,7 @@ PROPS = {
                   "Histories of pushes of recurring label sets over simulated time (30-minute cache reset, midnight crossings, five process time zones) with series/sample insert faults; at every ack each sample needs a successfully inserted series row of its type under a day the reader searches (lower bound taken from the tree's FormatFromDate). Fingerprint = function of the label set and label document = JSON of the set are checked over all rows of the run (sampled inputs).",
                   "hash half of the property is only sampled; clustered mode skips the cache by design and is excluded from the index oracle", INGEST_RULE,
                   ["zone-west-of-utc", "zone-east-of-utc", "insert-failed"], design_ref="DESIGN.md §4 C04"),
-    "C05": ingest("C05", "deterministic simulation with hostile clients mixed into honest traffic on every ingest route; oracles: one response in bounded simulated time, no unrecovered panic in any goroutine, no livelock (scheduler step bound + wall-clock watchdog), goroutine census after quiescence",
+    "C05": ingest("C05", "deterministic simulation with hostile clients mixed into honest traffic on every ingest route; oracles: one response in bounded simulated time, no unrecovered panic in any goroutine, no livelock (scheduler step bound, loop-iteration bound, wall-clock watchdog), goroutine census after quiescence, lock discipline of shared Go maps",
                   "Truncated/bit-flipped/random/empty/badly-compressed/mis-typed/mis-routed bodies and extreme parameters are interleaved with honest pushes; the simrt.Go wrapper sees panics net/http would not, the census follows spawn ancestry, a goroutine that spins inside uninstrumented code is caught by the driver's wall-clock watchdog and attributed to its scenario.",
                   "input space sampled by mutation recipes; a stall inside uninstrumented code is detected by wall clock (60-90 s), not by the step counter", INGEST_RULE,
                   ["request-answered-5xx", "request-answered-2xx"], stall=True, design_ref="DESIGN.md §4 C05"),
@@ -103,11 +103,11 @@ READ_RULE = ("a case is one seeded run of the whole reader in a synctest bubble:
              "(connect error, statement error, error or stall at row k, latencies), client faults (goes away, slow consumer) and a schedule tape. Non-trivial = a fault was configured or the scheduler had a real choice; "
              "distinct = distinct hash of the grant sequence + number of SQL statements.")
 
-PROPS["C12"] = read("C12", "TestRead", "deterministic simulation of the reader on a scripted fault-injecting database/sql driver; oracles: response or abort in bounded simulated time, no unrecovered panic/fatal error in any goroutine, goroutine census back to baseline, livelock detection",
+PROPS["C12"] = read("C12", "TestRead", "deterministic simulation of the reader on a scripted fault-injecting database/sql driver; oracles: response or abort in bounded simulated time, no unrecovered panic/fatal error in any goroutine, goroutine census back to baseline, livelock and spin detection, lock discipline of shared Go maps (the runtime's concurrent-map abort is a crash the serialising scheduler cannot produce)",
                     "Every read endpoint is driven with grammar-generated, mutated and random queries and hostile parameters while the database fails or stalls at arbitrary rows and clients go away; a panic on any goroutine (the pipeline stages run outside net/http's recover), a fatal runtime error that kills the worker, a request that never returns and request goroutines alive 35 simulated seconds after the end are violations.",
                     "inputs and fault points are sampled; SQL is never executed", READ_RULE,
                     ["rows-closed-before-end", "status-2xx", "status-5xx", "endpoint-query_range", "endpoint-search", "endpoint-prom_range"], crash=True, design_ref="DESIGN.md §5 C12")
-PROPS["C15"] = read("C15", "TestRead", "deterministic simulation (fault-free configuration) of the query endpoints on scripted result sets; oracle: the collected body parses as one JSON document and, for pass-through log queries, contains every served row exactly once under one object per label set",
+PROPS["C15"] = read("C15", "TestRead", "deterministic simulation (fault-free configuration) of the query endpoints on scripted result sets; oracle: the collected body parses as one JSON document and, for pass-through log queries, contains every served row exactly once under one object per label set; metric documents (LogQL, PromQL): one object per series, strictly increasing timestamps, served values unchanged; list endpoints: every served string once; concurrent requests interleave at every socket write",
                     "The real pipeline (Scan batching at 100 rows, stage goroutines, streaming encoder) sits between the scripted rows and the body; result-set shapes (empty, batch-boundary inside a series, fingerprint 0 first, interleaved series, special characters) are sampled by the generator. Weak claim: the decisive quantifier (result sets) is sampled.",
                     "row-level comparison only for plain selector queries (no stage changes the rows); other endpoints are checked for being one well-formed JSON document", READ_RULE,
                     ["status-2xx", "endpoint-query_range", "endpoint-query"], design_ref="DESIGN.md §5 C15")
@@ -147,7 +147,7 @@ PROPS.update({
     },
 })
 
-PROPS["C14"] = read("C14", "TestC14", "deterministic simulation of translation histories: the SQL observed at the query face for one request is compared (after erasing time literals) between a first translation, one after a history of other translations, one interleaved with concurrent translations by the baton scheduler, earlier runs of the same worker process, successive ticks of the live-tail loop on one prepared plan, and the portions of a complex TraceQL request",
+PROPS["C14"] = read("C14", "TestC14", "deterministic simulation of translation histories: the SQL observed at the query face for one request is compared (after erasing time literals) between a first translation, one after a history of other translations, one interleaved with concurrent translations by the baton scheduler, earlier runs of the same worker process, successive ticks of the live-tail loop on one prepared plan (also across a UTC date change, against a fresh translation made at the same moment), and the portions of a complex TraceQL request; subjects are LogQL, TraceQL, PromQL and Pyroscope requests",
                     "Histories, interleavings and repeated executions are simulated with the real services; equal canonical text implies equal meaning (sound for passing), any other difference is reported. Query programs are sampled from the LogQL/TraceQL generators.",
                     "the canonicaliser erases integer literals of 9+ digits, date literals, and for TraceQL portions the portion selector and the list of found trace ids; live tail is exercised for log queries only (Loki defines tailing for log queries)", READ_RULE.replace("1-3 concurrent clients x 1-4 requests", "one subject request translated first / after 0-4 other requests / concurrently with 0-3 others / tailed for 0-4 ticks"),
                     ["tail-ticks-compared", "traceql-portions-compared", "translations-compared"], quick_checks=600, design_ref="DESIGN.md §5 C14")
